@@ -264,7 +264,10 @@ CHECKS["C12"] = dict(
           "C01 feasibility. Eager assert_constraints on real float64 layers with assigned weights (each inequality "
           "instance x unit injected) is compared in Coq with the model's boolean on every run."),
     note="Model: Model/Asserts.v. L2 norm compared by squares. Not asserted by the code hence not covered: "
-         "unimodalities, PWL convexity, cyclic closure, KFL bias.",
+         "unimodalities, PWL convexity, cyclic closure, KFL bias. What a passing assert MEANS for the layer function is "
+         "proved by composition with C02 / C05 / C07 / C20 (C12_*_assert_implies_*: monotone for every pair of points, "
+         "bounded, dominance effects, weighted average; KFL needs non-negative factors, which the assert does not "
+         "check: refuted witness, open known finding D72).",
     technique="Coq proof (assert == independently stated feasibility) + in-Coq correspondence with eager assert_constraints",
     design="7/C12")
 CHECKS["C14"] = dict(
